@@ -142,6 +142,52 @@ int cmdEdits(int argc, char** argv) {
 			}
 			markPhase(2);
 			runOne(nif, seed * 31 + k, steps, caseOf(k), out);
+			if (cases[k].file.empty()) return;
+			// the same object is used again for other files and versions (with and without a size table) and for a new model
+			{
+				ContentIds ids;
+				const std::string others[] = {files[(k + 1) % files.size()], "TestNifFile_Skinned_OB.nif", files[(k + 7) % files.size()]};
+				for (auto& o : others) {
+					if (nif.Load(samplePath(o)) != 0) continue;
+					JArr ops;
+					ops.add("Load " + o + " into the object used before");
+					fileEvent(out, caseOf(k), "raw", nif, saveToString(nif, false, false), ids, ops.done());
+					fileEvent(out, caseOf(k), "default", nif, saveToString(nif, true, true), ids, ops.done());
+				}
+				const char* cv[] = {"OB", "SSE", "FO3", "FO4"};
+				for (auto v : cv) {
+					nif.Create(versionByName(v));
+					MatTransform t;
+					nif.AddNode("created", t);
+					JArr ops;
+					ops.add(std::string("Create ") + v + " in the object used before");
+					fileEvent(out, caseOf(k), "raw", nif, saveToString(nif, false, false), ids, ops.done());
+				}
+			}
+			// files in which one block type, and all of them, are unknown to the library
+			{
+				std::string bytes = readFile(samplePath(cases[k].file));
+				HeaderInfo h = parseHeader(bytes);
+				if (h.ok && h.hasSizes && !h.types.empty()) {
+					std::vector<std::vector<std::string>> sets = {{h.types[(seed + k) % h.types.size()]}, {h.types[(seed + k + 3) % h.types.size()]}, h.types};
+					for (auto& U : sets) {
+						std::string ub = bytes;
+						if (!relabelTypes(ub, U)) continue;
+						NifFile un;
+						if (loadFromString(un, ub) != 0) continue;
+						ContentIds ids;
+						JArr ops;
+						ops.add("types unknown: " + std::to_string(U.size()) + " (" + U[0] + ")");
+						fileEvent(out, caseOf(k), "raw", un, saveToString(un, false, false), ids, ops.done());
+						fileEvent(out, caseOf(k), "default", un, saveToString(un, true, true), ids, ops.done());
+						// a known block gets a longer name than any string of the table
+						if (auto root = un.GetRootNode()) {
+							root->name.get() = "a name that is longer than the strings of the unknown blocks, by a fair margin";
+							fileEvent(out, caseOf(k), "default", un, saveToString(un, true, true), ids, ops.done());
+						}
+					}
+				}
+			}
 		},
 		[&](size_t k, const std::string& why, FILE* out) {
 			// crashes of edit operations on odd models are not C07's concern (C09/C12/C14/C15 own them): recorded as discards
